@@ -16,7 +16,8 @@ RULE = ('complete 256 x 256 flag x allowed-flags matrix for CHECK_SIG and CHECK_
         'single-bit corruptions of key / signature / covered field / excluded field / flag byte. Oracle: reference '
         'message builder + pure-Python RFC 8032 (sign is deterministic, so SIGN is compared byte for byte). '
         'non-trivial = a present field is excluded by the flag, or the flag is not permitted, or a corruption / '
-        'malformed operand is applied; distinct by (subset, flag, allowed, op, corruption kind and position).')
+        'malformed operand is applied; distinct by (subset, flag, allowed, op, corruption kind and position).'
+        ' Cases draw decoy cache entries that are not sigfield1-8 (sigfield9, sigfield10, sigfield0, Sigfield1, bytes-keyed sigfield1, ...): never part of a message.')
 ASSUMPTIONS = ['vt/ed25519_ref.py (RFC 8032) is the verification oracle for the sampled part; the complete matrix uses '
                'libsodium-made signatures whose validity is established by construction and spot-checked by the reference',
                'after a key / signature bit flip only "not true" is required (invalid encodings may be rejected either way)',
@@ -53,9 +54,17 @@ def reorder(fields, order):
     return {k: fields[k] for k in keys}
 
 
+# cache entries that are NOT sigfield1 .. sigfield8 (the message is made of exactly those eight names): present in the cache
+# of every run of a case that draws them, never part of a message
+DECOYS = {'sigfield9': b'nine', 'sigfield10': b'ten', 'sigfield0': b'zero', 'sigfield': b'bare', 'sigfield01': b'padded',
+          'Sigfield1': b'capital', 'sigfield1 ': b'space', b'sigfield1': [b'bytes key'], 'sigfield11': b'eleven', 'custom': b'c'}
+_ACTIVE_DECOYS = {}
+
+
 def run(code, fields):
     try:
-        _, s, c = F.run_script(code, dict(fields))
+        _, s, c = F.run_script(code, dict(fields, **{k: v for k, v in _ACTIVE_DECOYS.items() if isinstance(k, str)},
+                                          ) | {k: v for k, v in _ACTIVE_DECOYS.items() if not isinstance(k, str)})
         return ('ok', s.list())
     except env.SEE as e:
         return ('see', str(e)[:40])
@@ -136,6 +145,16 @@ def _flip(b, bit):
 
 def check_general(case):
     """One Hypothesis case (see strategy)."""
+    _ACTIVE_DECOYS.clear()
+    names = list(DECOYS)
+    _ACTIVE_DECOYS.update({names[i % len(names)]: DECOYS[names[i % len(names)]] for i in case.get('decoys', [])})
+    try:
+        return _check_general(case)
+    finally:
+        _ACTIVE_DECOYS.clear()
+
+
+def _check_general(case):
     seed, fields, flag, allowed, op = case['seed'], case['fields'], case['flag'], case['allowed'], case['op']
     kind, pos = case.get('corrupt', ('none', 0))
     fails = []
@@ -317,7 +336,8 @@ def general(draw):
                                     'key-len', 'sig-len']))
     fields = reorder(fields, draw(st.one_of(st.just('ascending'), st.just('reversed'), st.integers(0, 1000))))
     c = {'check': 'general', 'seed': seed, 'fields': fields, 'flag': flag, 'allowed': allowed, 'op': op,
-         'corrupt': (corrupt, draw(st.integers(0, 4095))), 'form65': draw(st.booleans())}
+         'corrupt': (corrupt, draw(st.integers(0, 4095))), 'form65': draw(st.booleans()),
+         'decoys': draw(st.one_of(st.just([]), st.lists(st.integers(0, len(DECOYS) - 1), min_size=1, max_size=3, unique=True)))}
     if op in ('SIGN_STACK', 'CHECK_SIG_STACK') and draw(st.booleans()):
         c['message'] = draw(st.binary(min_size=1, max_size=200))
     return c
@@ -326,6 +346,8 @@ def general(draw):
 def task_general(ctx):
     def one(c):
         fails = check_general(c)
+        if c.get('decoys'):
+            ctx.count('cache holds entries that are not sigfield1-8 (sigfield9, sigfield0, Sigfield1, ...)')
         flag, fields = c['flag'], c['fields']
         nt = (any((flag >> (int(k[-1]) - 1)) & 1 for k in fields) or (flag & ~c['allowed']) & 0xff != 0 or
               c['corrupt'][0] != 'none')
